@@ -36,6 +36,8 @@ pub struct FaultState {
     pub plan: Vec<(usize, IoAnswer)>,
     /// Every call with index >= this fails (before touching the device).
     pub fail_from: Option<usize>,
+    /// 0: `fail_from` applies to every call; 1 record data, 2 retirement markers, 3 journal writes only
+    pub fail_from_kind: u8,
     /// Kind of every device call seen, in order.
     pub calls: Vec<CallKind>,
     pub enabled: bool,
@@ -168,7 +170,8 @@ impl Session {
         feoxdb::verif::install(None);
     }
 
-    fn fault_answer(&self, kind: CallKind) -> IoAnswer {
+    /// `class`: 0 fsync / unknown, 1 record data, 2 retirement marker, 3 journal, 4 metadata
+    fn fault_answer(&self, kind: CallKind, class: u8) -> IoAnswer {
         let mut f = self.fault.lock();
         if !f.enabled {
             return IoAnswer::Proceed;
@@ -183,7 +186,7 @@ impl Session {
             }
             return a;
         }
-        if f.fail_from.is_some_and(|from| index >= from) {
+        if f.fail_from.is_some_and(|from| index >= from) && (f.fail_from_kind == 0 || f.fail_from_kind == class) {
             return IoAnswer::FailBefore;
         }
         IoAnswer::Proceed
@@ -208,7 +211,16 @@ impl Handler for Session {
                 return IoAnswer::FailBefore;
             }
         }
-        let a = self.fault_answer(CallKind::Write);
+        let class = if (4096..7 * 4096).contains(&offset) {
+            3
+        } else if offset < 16 * 4096 {
+            4
+        } else if _data.len() >= 2 && _data[0] == 0xCD && _data[1] == 0xAB {
+            1
+        } else {
+            2
+        };
+        let a = self.fault_answer(CallKind::Write, class);
         if trace_io() && a != IoAnswer::Proceed {
             eprintln!("io: write {_site} block {} answered {a:?}", offset / 4096);
         }
@@ -232,7 +244,7 @@ impl Handler for Session {
         if self.fault.lock().fail_fsyncs {
             return IoAnswer::FailBefore;
         }
-        let a = self.fault_answer(CallKind::Fsync);
+        let a = self.fault_answer(CallKind::Fsync, 0);
         if a != IoAnswer::FailBefore {
             self.fsync_open.store(true, Ordering::SeqCst);
             if self.log_enabled.load(Ordering::Relaxed) {
